@@ -360,6 +360,19 @@ def reject(ctx, dev) -> None:
         ctx.rep.check(not missing, rule, cb + f"/broadcast[{what}]", "a singleton is repeated to the longest of the three arguments",
                       f"a single {what} entry is repeated max({', '.join('len(' + x + ')' for x in names)}) times: the length of {', '.join(missing)} is not taken into account, so one "
                       f"{what} entry with several {' / '.join(missing)} entries is rejected instead of broadcast", where=f.where(cs.call))
+    # ... and every one of the three arguments can be given as a singleton: its normalisation on the way to the loops contains a
+    # repetition (numpy.repeat / tile / broadcast_to / full / resize) on some path
+    from ..defuse import norm_chains
+
+    for what in ("source_wells", "destination_wells", "volumes"):
+        term = fv.res.resolve(ast.Name(id=what, ctx=ast.Load()), at)
+        base = strip_norm(term)
+        if not (isinstance(base, ast.Name) and base.id == what):
+            continue  # re-bound to something else: judged by the pairing rules
+        steps = {nm for ch in norm_chains(term) for nm, _c in ch}
+        ctx.rep.check(bool(steps & {"repeat", "tile", "broadcast_to", "full", "resize", "broadcast_arrays"}) or not steps, rule, cb + f"/singleton[{what}]", f"a single {what} entry is broadcast to the common length",
+                      f"`{what}` reaches the pipetting loops without a singleton broadcast (normalisation steps: {sorted(steps)}): one {what} entry with several entries in the other "
+                      "arguments is rejected by the length check instead of being repeated", where=w)
     # negative / NaN volumes
     ok_neg = False
     weak = ""
